@@ -31,7 +31,7 @@
                      for PointwiseNorm, |z| > 0 for ComplexModulus.  (Norm/Dist singularities are covered by
                      [deriv_ok]: the code raises there.) *)
 From Coq Require Import Reals List Bool ZArith.
-From Verif Require Import Base.Num Base.Vec C06.Syntax Gen.UfuncDeriv C06.Model C06.Calc C06.Lin C06.LinMap C06.Leaves C06.Proofs C06.FModel C06.FProofs Gen.Derivatives C06.Interp C06.Tie.
+From Verif Require Import Base.Num Base.Vec C06.Syntax Gen.UfuncDeriv C06.Model C06.Calc C06.Lin C06.LinMap C06.Leaves C06.Proofs C06.FModel C06.FProofs Gen.Derivatives C06.Interp C06.Tie Gen.Gradients C06.FInterp C06.FTie.
 Import ListNotations.
 Local Open Scope R_scope.
 
@@ -220,6 +220,19 @@ Theorem model_leaf_derivative_is_regenerated_rule :
   lderiv P l x = linterp P l x (leaf_rule c) /\ lderiv_ok P l x = linterp_ok P l x (leaf_rule c).
 Proof. exact (@leaf_derivative_is_source_rule). Qed.
 Print Assumptions model_leaf_derivative_is_regenerated_rule.
+
+(* The same for the functionals: Gen/Gradients.v is re-emitted from the `gradient` properties of
+   FunctionalLeftScalarMult, FunctionalRightScalarMult, FunctionalComp, FunctionalRightVectorMult,
+   FunctionalSum (hence FunctionalScalarSum), FunctionalTranslation, FunctionalQuadraticPerturb,
+   FunctionalProduct, FunctionalQuotient (translate/gradients.py also insists that
+   Functional.derivative is `gradient(point).T`); the model's [fgrad] IS the interpretation
+   (C06/FInterp.v) of these rules. *)
+Theorem model_gradient_is_regenerated_rule :
+  forall (T : Type) (N : Num T) (rt : T -> T) (mav : bool) (w : list T) (f : @fexpr T) (x : list T) (c : fclass),
+  fclass_of f = Some c ->
+  fgrad rt mav w f x = gval rt mav (fgrad rt mav) w f (grad_rule c) x.
+Proof. exact (@fgrad_is_source_rule). Qed.
+Print Assumptions model_gradient_is_regenerated_rule.
 
 (* T1 for functionals (odl/solvers/functional/functional.py, model C06/FModel.v):
    Functional.derivative(x) = InnerProductOperator(gradient(x)).  For EVERY tree of
